@@ -389,6 +389,7 @@ func (t *fnTr) interpCall(c *ast.CallExpr) (fnVal, bool) {
 		if len(d.results) != 1 {
 			t.fail(c, "a call of %s, which has %d results, inside an expression", d.spec.Coq, len(d.results))
 		}
+		t.methResultCheck(c, d, recv)
 		v := t.callTerm(c, d, recv)
 		v.ty = d.results[0]
 		if v.ty.k == fkNum {
@@ -899,8 +900,12 @@ func (t *fnTr) exprStmtInterp(c *ast.CallExpr, k func() string) (string, bool) {
 	return t.bindCall(c, d, recv, lhs, func([]string) string { return k() }), true
 }
 
-// whileStmt: `for cond { ... }` has no syntactic bound on the number of iterations.
+// whileStmt: `for cond { ... }` has no syntactic bound on the number of iterations, except `for len(b) > 0 { ... }` with
+// b re-sliced in the body (funcs_script.go).
 func (t *fnTr) whileStmt(x *ast.ForStmt, k func() string) string {
+	if out, ok := t.whileLen(x, k); ok {
+		return out
+	}
 	t.fail(x, "for loop with only a condition (no bound for the number of iterations)")
 	return ""
 }
